@@ -83,13 +83,31 @@ async def base_session(sim, shape, inject):
         try:
             return await coro
         except asyncio.CancelledError:
-            raise
+            if asyncio.current_task().cancelling() > 0:
+                raise
+            sim.emit(f"apiRaised {name} CancelledError")      # nobody cancelled the caller: the client let a CancelledError of a callback escape
         except Exception as e:
             sim.emit(f"apiRaised {name} {type(e).__name__}")
     try:
         await api("connect", c.connect())
         await sim.settle(0.001)
-        if sim.conns and c.state.name == "CONNECTED":
+        if shape == "flap":
+            # a gateway that accepts every connection and drops it 10 ms later, while the application keeps sending every 50 ms
+            async def dropper():
+                seen = 0
+                while True:
+                    if len(sim.conns) > seen:
+                        seen = len(sim.conns)
+                        await sim.pause(0.01)
+                        sim.eof(seen, gone=True)
+                    await sim.pause(0.005)
+            dr = asyncio.ensure_future(dropper())
+            for j in range(60):
+                await api("send", c.send(make_msg(100 + j, 1)))
+                await sim.pause(0.05)
+            dr.cancel()
+            await asyncio.gather(dr, return_exceptions=True)
+        elif sim.conns and c.state.name == "CONNECTED":
             sim.feed(pk(1) + pk(2)[:5])
             await sim.settle(0.001)
             if sim.conns:
@@ -115,7 +133,10 @@ async def base_session(sim, shape, inject):
                 sends = [api("send", c.send(make_msg(1, 3)))]
                 if shape == "send2":
                     sends += [api("send", c.send(make_msg(2, 2))), api("send", c.send(make_msg(3, 1)))]
-                await asyncio.gather(*sends)
+                try:
+                    await asyncio.wait_for(asyncio.gather(*sends), 8.0)
+                except asyncio.TimeoutError:
+                    sim.emit("--sendStuck 1")
                 if kind != "actisense":
                     await api("send", c.send(make_msg(9, 2, bad=True)))
             await sim.settle(0.02)
@@ -126,6 +147,13 @@ async def base_session(sim, shape, inject):
         if sim.conns and c.state.name == "CONNECTED":
             sim.feed(pk(4))
             await sim.settle(0.02)
+            if kind != "actisense" and shape != "flap":
+                # a message sent on the link that is current now must go out whatever happened to earlier links and senders
+                try:
+                    await asyncio.wait_for(api("send", c.send(make_msg(15, 2))), 3.0)
+                except asyncio.TimeoutError:
+                    sim.emit("--sendStuck 15")
+                await sim.settle(0.02)
     finally:
         await asyncio.gather(inj, return_exceptions=True)
         if not sim.events or sim.events[-1] != "closeReturn":
@@ -191,6 +219,25 @@ def scenarios(ctx):
                         for cbm, stm in (("ok", "ok"), ("raise", "ok"), ("slow", "slow"), ("ok", "raise"), (["ok", "close"], "ok"), ("close", "raise"), ("ok", "close-on-disconnect"), ("ok", "slow-connected"), ("ok", "connect-on-disconnect"), (["ok", "cancelled", "ok"], "ok")):
                             out.append(dict(kind=kind, shape=shape, connect=cs, action=action, point=[kindp, v], cb=cbm, status=stm,
                                             drain=rnd.choice([None, [1], [0, 2], [3]])))
+    # families outside the product above
+    for kind in kinds:
+        for st in ("cancelled", "badstr"):
+            for cs in (["ok"], ["refuse", "ok"]):
+                for action in ("none", "close", "eof", "readerr", "writefail"):
+                    for kindp, v in [("ticks", t) for t in (0, 3, 6, 9)] + [("at", a) for a in (0.003, 0.4, 2.0)]:
+                        out.append(dict(kind=kind, shape=rnd.choice(["plain", "send"]), connect=cs, action=action, point=[kindp, v], cb="ok", status=st, drain=None))
+        for cbm in ("badstr", ["ok", "badstr", "ok"]):
+            for action in ("none", "eof", "close"):
+                for kindp, v in [("ticks", t) for t in (0, 4, 8)] + [("at", 0.4)]:
+                    out.append(dict(kind=kind, shape="plain", connect=["ok"], action=action, point=[kindp, v], cb=cbm, status="ok", drain=None))
+        if kind != "actisense":
+            # a sender stuck in drain() (the peer stopped reading) when the link is lost
+            for action in ("eof", "readerr", "garbage-eof"):
+                for kindp, v in [("ticks", t) for t in (6, 8, 10, 12)] + [("at", a) for a in (0.003, 0.015)]:
+                    for shape in ("send", "send2"):
+                        out.append(dict(kind=kind, shape=shape, connect=["ok"], action=action, point=[kindp, v], cb="ok", status="ok", drain=["stuck"]))
+            for stm in ("ok", "slow"):
+                out.append(dict(kind=kind, shape="flap", connect=["ok"], action="none", point=["ticks", 0], cb="ok", status=stm, drain=None))
     rnd.shuffle(out)
     return out
 
@@ -307,13 +354,13 @@ def c12_segment(rnd, s, mode):
     return out
 
 
-def c12_session(kind, packets, reads, cb_mode):
+def c12_session(kind, packets, reads, cb_mode, eof=False, sim=None):
     """feed the reads to a connected client; returns the sim (callback log, read log, queue events)"""
     if _LOADED[0] != common.REPO:
         harness.load_repo()
         _LOADED[0] = common.REPO
 
-    sim = clientsim.Sim(kind, cb_mode=cb_mode)
+    sim = sim or clientsim.Sim(kind, cb_mode=cb_mode)
 
     async def go():
         await sim.start()
@@ -327,7 +374,12 @@ def c12_session(kind, packets, reads, cb_mode):
         for r in reads:
             sim.feed(r)
             await sim.ticks(2)
-        await sim.settle(0.5)
+        if eof:
+            await sim.settle(0.5)
+            sim.eof(1)             # the peer ends the stream, possibly in the middle of a packet
+            await sim.settle(0.3)
+        else:
+            await sim.settle(0.5)
         await c.close()
         await sim.settle(0.05)
         sim.stop()
@@ -382,10 +434,17 @@ def suite_framing(ctx, n=None):
         kind = clientsim.Sim.KINDS[t % 4]
         packets = c12_stream(kind, rnd, rnd.choice([1, 3, 8]))
         stream = b"".join(packets)
+        # a third of the streams end in the middle of a packet: the fragment is not one of the stream's packets
+        eof = rnd.random() < 0.34
+        if eof:
+            last = PACKET[kind](99)
+            stream += last[:rnd.choice([len(last) - 1, len(last) - 2, len(last) - 3, len(last) - 4, len(last) // 2, 3])]
         reads = c12_segment(rnd, stream, rnd.choice(["one", "all", "rand", "marker"]))
-        cbm = rnd.choice(["ok", ["ok", "raise"], "slow", ["raise", "slow", "ok"], ["ok", "cancelled", "ok", "ok"]])
-        sim = c12_session(kind, packets, reads, cbm)
-        got = ",".join(harness.hx(b) for _, b in sim.read_log)
+        cbm = rnd.choice(["ok", ["ok", "raise"], "slow", ["raise", "slow", "ok"], ["ok", "cancelled", "ok", "ok"], ["ok", "badstr", "ok"]])
+        sim = c12_session(kind, packets, reads, cbm, eof=eof)
+        # what the client took off the reader as packets (at the end of the stream the StreamReader hands out the unterminated rest
+        # and then b'': neither is a packet; whether the client treats them as one shows in the delivery comparison below)
+        got = ",".join(harness.hx(b) for c_, b in sim.read_log if c_ == 1 and not (eof and kind in ("yd", "actisense") and not b.endswith(b"\n")))
         cmd = {"ebyte": "reader.feed13", "yd": "reader.lines", "actisense": "reader.lines"}.get(kind)
         if cmd:
             s.add(f"{cmd} {','.join(harness.hx(r) for r in reads)}", None, kind, meta=("prefix", got))
@@ -464,6 +523,23 @@ def monitor(sim, sc):
             if j is not None and not any(x.startswith("sleep") and int(x.split()[1]) > 0 for x in ev[i:j]):
                 out.append(("C13", "zero-delay", "a connection attempt follows a DISCONNECTED report without any wait (a gateway that accepts and drops is reconnected to in a tight loop)"))
                 break
+    # C13: attempts are never closer together than the smallest retry delay, however many senders report the fault
+    if sc["action"] != "connect" and sc["status"] != "connect-on-disconnect":
+        ts = [t for e, t in zip(ev, getattr(sim, "event_times", [])) if e.startswith("implStart") and t is not None]
+        gaps = [b - a for a, b in zip(ts, ts[1:])]
+        if gaps and min(gaps) < 0.499:
+            out.append(("C13", "retry-floor", f"two connection attempts {min(gaps):.3f} s apart ({len(ts)} attempts): the delay between attempts falls below the 0.5 s floor"))
+    # C19: a message sent on the current link goes out even if an earlier sender is stuck on a link that has been given up
+    if "--sendStuck 1" in ev and fault:
+        out.append(("C19", "send-blocked", "a sender suspended in drain() on a link that has been given up after a fault is never released: the link is replaced without being shut"))
+    if "--sendStuck 15" in ev:
+        out.append(("C19", "send-blocked", "send() on the connected link did not return within 3 s and wrote nothing: it waits behind a sender stuck on a link that has been replaced"))
+    elif "sendCall 15" in ev and (closed_idx is None or closed_idx > ev.index("sendCall 15")):
+        j = ev.index("sendCall 15")
+        r = ev.index("sendReturn 15") if "sendReturn 15" in ev else len(ev)
+        if closed_idx is None or closed_idx > r:
+            if [x.split()[2:] for x in ev[j:r] if x.startswith("write ")] != [["15", "0"], ["15", "1"]] and not any(x.startswith(("writeFail", "drainFail")) for x in ev[j:r]):
+                out.append(("C19", "send-incomplete", f"a message sent while CONNECTED was not written in full: {ev[j:r + 1]}"))
     # C13: the receive path gives other tasks a turn: frames that are already buffered are not all processed in one event-loop step
     its = getattr(sim, "recv_loop_iters", [])
     run = 1
@@ -521,7 +597,7 @@ def monitor(sim, sc):
             break
         per[sid] = idx + 1
     for i, e in enumerate(ev):
-        if e.startswith("sendCall") and int(e.split()[1]) >= 20:       # the scenario's deliberately unsendable messages
+        if e.startswith("sendCall") and 20 <= int(e.split()[1]) < 100:       # the scenario's deliberately unsendable messages
             sid = e.split()[1]
             j = next((j for j in range(i, len(ev)) if ev[j] == f"sendReturn {sid}"), len(ev))
             if closed_idx is None or closed_idx > j:
